@@ -107,6 +107,8 @@ var verifImportPaths = []string{
 	"gopkg.in/yaml.v3",
 	"example.com/x/trusted_lib",
 	"example.com/a-b/c.d",
+	"example.com/m/trusted_deps/util",
+	"example.com/m/nottrusted_x",
 }
 
 func verifC08ImportSpecs() {
